@@ -59,8 +59,12 @@ def runFrom (nat : Nat → α) (gs : List (α → α)) (lo atol : α) :
     if stops i err atol then some (i, sts'.map (·.2), (err :: errs).reverse)
     else runFrom nat gs lo atol fuel (i+1) sts' (err :: errs)
 
+/-- the loop with a budget of `rounds` refinements (the code's budget is 30) -/
+def runCapped (nat : Nat → α) (gs : List (α → α)) (lo hi atol : α) (rounds : Nat) : Option (Nat × List α × List α) :=
+  runFrom nat gs lo atol rounds 1 (gs.map fun g => (hi - lo, init nat g lo hi)) []
+
 def run (nat : Nat → α) (gs : List (α → α)) (lo hi atol : α) : Option (Nat × List α × List α) :=
-  runFrom nat gs lo atol 30 1 (gs.map fun g => (hi - lo, init nat g lo hi)) []
+  runCapped nat gs lo hi atol 30
 
 /-- `1[x > 0]` -/
 def ind (nat : Nat → α) (x : α) : α := if nat 0 < x then nat 1 else nat 0
